@@ -3,7 +3,7 @@
    border), runs only through finite, i.e. in-band and max_step-admissible,
    cells, and its cost, penalties included, is exactly the value of that cell. *)
 From Coq Require Import ZArith List Lia String.
-From DV Require Import Cost Grid Dtw DtwSpec Traceback RelaxedEnd RelaxedEndSpec TracebackC CTrace CTraceSim CTraceSpec CWps.
+From DV Require Import Cost Grid Dtw DtwSpec Traceback RelaxedEnd RelaxedEndSpec TracebackC CTrace CFillSim CTraceSim CTraceSpec CFillTrace CWps.
 From DVGen Require Import Gen_ctrace.
 
 Theorem C05_traced_path_cost : forall u s1 s2 i j,
@@ -81,6 +81,7 @@ Theorem C05_c_loop_path_cost : forall l1 l2 window0, (1 <= l1)%Z -> (1 <= l2)%Z 
   forall d pen p1b p2b (W : Z -> Z -> cost),
   (forall (i : nat) (s : Z), (Z.of_nat i <= l1)%Z -> (0 <= s < cw_width l1 l2 window0)%Z ->
      (0 <= s + cw_shift l1 l2 window0 (Z.of_nat i - 1) <= l2)%Z ->
+     ((s + cw_shift l1 l2 window0 (Z.of_nat i - 1))%Z = 0%Z -> (Z.of_nat i <= cw_ri2 l1 l2 window0)%Z) ->
      W (Z.of_nat i) s = Mf d pen p1b p2b i (Z.to_nat (s + cw_shift l1 l2 window0 (Z.of_nat i - 1)))) ->
   (forall i j : nat, (Z.of_nat (S i) <= l1)%Z -> (Z.of_nat (S j) <= l2)%Z -> Mf d pen p1b p2b (S i) (S j) <> Inf ->
      (band_lo l1 l2 (cw_window l1 l2 window0) (Z.of_nat i) <= Z.of_nat j < band_hi l1 l2 (cw_window l1 l2 window0) (Z.of_nat i))%Z) ->
@@ -100,8 +101,24 @@ Theorem C05_c_loop_path_cost_for_dtw : forall u (s1 s2 : list point) (W : Z -> Z
   (1 <= l1)%Z -> (1 <= l2)%Z -> match u_window u with Some w => (1 <= w)%Z | None => True end ->
   (forall (i : nat) (s : Z), (Z.of_nat i <= l1)%Z -> (0 <= s < cw_width l1 l2 w0)%Z ->
      (0 <= s + cw_shift l1 l2 w0 (Z.of_nat i - 1) <= l2)%Z ->
+     ((s + cw_shift l1 l2 w0 (Z.of_nat i - 1))%Z = 0%Z -> (Z.of_nat i <= cw_ri2 l1 l2 w0)%Z) ->
      W (Z.of_nat i) s = Mfun u s1 s2 i (Z.to_nat (s + cw_shift l1 l2 w0 (Z.of_nat i - 1)))) ->
   forall fuel i j wpsi, (i + j <= fuel)%nat -> (Z.of_nat i <= l1)%Z -> (Z.of_nat j <= l2)%Z -> Mfun u s1 s2 i j <> Inf ->
   wpsi = (Z.of_nat j - cw_shift l1 l2 w0 (Z.of_nat i - 1))%Z ->
   wpath_cost u s1 s2 i j (c_trace l1 l2 w0 (adj_penalty u) W fuel i j wpsi) = Some (Mfun u s1 s2 i j).
 Proof. exact c_loop_path_cost_for_dtw. Qed.
+
+(* (5) End to end, no hypothesis about the array left: the compact array as the FILL loops leave it (CFillSim.stored: the
+   loops as written over the regenerated geometry and recurrence text; no pruning inside the loop, exact arithmetic) holds
+   the specification matrix through the layout, so the path the C loop traces from the slot of a finite cell of the array
+   the engine filled itself costs exactly the value of that cell. *)
+Theorem C05_c_fill_then_trace : forall u (s1 s2 : list point),
+  let l1 := Z.of_nat (sr s1) in let l2 := Z.of_nat (sc s2) in let w0 := c_window_arg u in
+  (1 <= l1)%Z -> (1 <= l2)%Z -> match u_window u with Some w => (1 <= w)%Z | None => True end ->
+  forall fuel i j, (i + j <= fuel)%nat -> (Z.of_nat i <= l1)%Z -> (Z.of_nat j <= l2)%Z -> Mfun u s1 s2 i j <> Inf ->
+  wpath_cost u s1 s2 i j
+    (c_trace l1 l2 w0 (adj_penalty u)
+       (fun row s => stored l1 l2 w0 (cell u s1 s2) (adj_penalty u) (psi_1b u) (psi_2b u) (Z.to_nat row) s)
+       fuel i j (Z.of_nat j - cw_shift l1 l2 w0 (Z.of_nat i - 1))%Z)
+  = Some (Mfun u s1 s2 i j).
+Proof. exact c_fill_then_trace. Qed.
